@@ -115,6 +115,73 @@ def extraction_cross_check(ctx, po: dict) -> None:
         ctx.report.notes.append(f"extraction cross-check: {len(used)} sampled commands ({', '.join(fams)}) re-evaluated by vm_compute inside coqc, all equal to the extracted driver's replies")
 
 
+# ---------------------------------------------------------------------------------- source ties
+# Parts of the source are translated to Gallina on every run (translate/py2v.py) and the tie theorems
+# (coq/tie/*Tie.v: the translated source and the hand-written model are in lock step for every history
+# of calls) are re-proved against the fresh translation.
+TIES = {
+    "lookup_enc": {"sources": ["pyjelly/serialize/lookup.py"], "gen": "LookupEncGen", "tie": "LookupEncTie",
+                   "theorems": ["source_writer_is_model"]},
+    "lookup_dec": {"sources": ["pyjelly/parse/lookup.py"], "gen": "LookupDecGen", "tie": "LookupDecTie",
+                   "theorems": ["source_reader_is_model", "tie_init_decoder_too_large"]},
+}
+
+
+def anchor_files(pid: str) -> list[str]:
+    for ln in (VERIF / "properties.jsonl").read_text().splitlines():
+        if ln.strip():
+            d = json.loads(ln)
+            if d["id"] == pid:
+                return d["anchors"]["files"]
+    return []
+
+
+def source_ties(ctx, po: dict, pid: str) -> list[str]:
+    """Regenerate and re-prove every tie whose source files the property is anchored in.
+    Returns the units that no longer check."""
+    import shutil
+    import tempfile
+
+    repo = os.environ.get("VERIF_REPO", "/repo")
+    anchors = set(anchor_files(pid))
+    broken_units = []
+    for unit, t in TIES.items():
+        if not anchors & set(t["sources"]):
+            continue
+        po["obligations"] += len(t["theorems"])
+        tmpd = tempfile.mkdtemp(prefix="verif_tie_")
+        try:
+            p = subprocess.run([sys.executable, str(VERIF / "translate" / "py2v.py"), repo, unit], capture_output=True, text=True, timeout=120)
+            if p.returncode != 0:
+                po["broken"].append(f"source tie {unit}: the translator cannot read {', '.join(t['sources'])} any more ({p.stderr.strip()[-300:]}); "
+                                    f"theorems {t['theorems']} of coq/tie/{t['tie']}.v are not re-proved")
+                broken_units.append(unit)
+                continue
+            gen_text = p.stdout
+            if FORBIDDEN.search(strip_comments(gen_text)):
+                po["broken"].append(f"source tie {unit}: forbidden construct in the generated file")
+                broken_units.append(unit)
+                continue
+            (Path(tmpd) / f"{t['gen']}.v").write_text(gen_text)
+            cmd = (f"cd {VERIF}/coq && timeout 600 coqc -Q tie PJ.Tie -Q {tmpd} PJ.Gen {tmpd}/{t['gen']}.v && "
+                   f"timeout 600 coqc -Q model PJ.Model -Q tie PJ.Tie -Q {tmpd} PJ.Gen -o {tmpd}/{t['tie']}.vo tie/{t['tie']}.v")
+            rc, out = sh(cmd, timeout=1300)
+            closed = out.count("Closed under the global context")
+            if rc != 0 or closed != len(t["theorems"]) or "Axioms:" in out:
+                po["broken"].append(f"source tie {unit}: coq/tie/{t['tie']}.v no longer proves {t['theorems']} against the translation of "
+                                    f"{', '.join(t['sources'])} (the source and model/Lookup.v are not shown to be in lock step): {out[-500:]}")
+                broken_units.append(unit)
+                continue
+            po["discharged"] += len(t["theorems"])
+            for th in t["theorems"]:
+                po["assumptions"][f"tie/{t['tie']}.{th}"] = "Closed under the global context"
+            ctx.report.notes.append(f"source tie {unit}: {', '.join(t['sources'])} translated to Gallina by translate/py2v.py "
+                                    f"({len(gen_text.splitlines())} lines), coq/tie/{t['tie']}.v re-proved against it: {', '.join(t['theorems'])}")
+        finally:
+            shutil.rmtree(tmpd, ignore_errors=True)
+    return broken_units
+
+
 def proof_obligations(pid: str) -> dict:
     """Re-compile props/<pid>.v and read the Print Assumptions output."""
     res = {"theorems": [], "obligations": 0, "discharged": 0, "broken": [], "checker_cmd": "", "assumptions": {}}
@@ -233,10 +300,21 @@ def main() -> int:
         if rc != 0 or "Fatal" in out or "Error" in out:
             po["broken"].append("coqchk rejected the development")
 
+    try:
+        broken_ties = source_ties(ctx, po, pid)
+    except Exception as e:  # noqa: BLE001
+        broken_ties = ["?"]
+        po["broken"].append(f"source tie could not be checked: {e!r}")
     plan = checks.PLANS[pid]
     disagreements: list[dict] = []
     try:
         disagreements = plan(ctx)
+        if broken_ties and not disagreements:
+            # the source is no longer shown to be the model: look harder for an input on which the property
+            # fails -- a second, independent sample judged by the property's own oracles
+            ctx.rng = random.Random(seed * 7919 + 13)
+            ctx.report.notes.append("a source tie broke: the plan was run a second time on an independent sample to search for a failing input")
+            disagreements = plan(ctx)
     except Exception:  # noqa: BLE001
         import traceback
 
